@@ -14,7 +14,7 @@ use_repo()
 
 import ebpfcat.lock as lockmod  # noqa: E402
 from ebpfcat.ethercat import (  # noqa: E402
-    CoECmd, EtherCat, EtherCatError, ODCmd, Terminal)
+    CoECmd, EtherCat, EtherCatError, MachineState, ODCmd, Terminal)
 from ebpfcat.lock import LockFile, MailboxLock, ParallelMailboxLock  # noqa
 
 PROPERTY = "C15"
@@ -658,6 +658,91 @@ def window_leg(res, tmpdir):
                           case=desc)
 
 
+def address_leg(res, rng, tmpdir):
+    """the lock a terminal is used under belongs to the address it has: a
+    multi-process master (lock file, get_mbx_lock as ParallelEtherCat has
+    it) brings a mailbox terminal up through the real initialize /
+    gentle_initialize - the terminal may still carry a station address from
+    an earlier run - and talks to it; afterwards the lock file holds a
+    counter in the byte of the terminal's current address and nowhere
+    else"""
+    sm = struct.pack("<HHBBBB", 0x1000, 64, 0x26, 0, 1, 1) + \
+        struct.pack("<HHBBBB", 0x1400, 64, 0x22, 0, 1, 2)
+    img = bytearray(b"\0" * 16) + struct.pack("<IIII", 2, 0x4321, 1, 7)
+    img += bytes(128 - len(img))
+    img += struct.pack("<HH", 41, len(sm) // 2) + sm + b"\xff" * 24
+    old = rng.choice([0, 0, 1500, 1077, 2999])
+    state0 = rng.choice([1, 1, 2]) if old else 1
+    how = rng.choice(["gentle", "gentle", "initialize", "twice"])
+    nreads = rng.randint(1, 4)
+    desc = dict(address_leg=True, stale_address=old, state=state0, how=how,
+                reads=nreads)
+    t = bus.SimTerminal("T", station=old, eeprom=bytes(img))
+    t.al_state = state0
+    if state0 == 2:
+        struct.pack_into("<HHBBBB", t.mem, 0x800, 0x1000, 64, 0x26, 0, 1, 0)
+        struct.pack_into("<HHBBBB", t.mem, 0x808, 0x1400, 64, 0x22, 0, 1, 0)
+    srv = InfoServer({(0x7000, 2): b"\x01\x02\x07\x09"}, 64, 64)
+    t.mbx_handler = srv.handle
+    b = bus.Bus([t])
+    path = os.path.join(tmpdir, f"al{rng.getrandbits(30)}")
+    out = {}
+
+    class Master(EtherCat):
+        terminal_addr_range = (1000, 3000)
+
+        def get_mbx_lock(self, no):
+            return ParallelMailboxLock(self.lf, no)
+
+    async def main(loop):
+        ec = Master("vf")
+        ec.lf = LockFile(path, 1000, 3000)
+        bus.attach(ec, loop, b)
+        term = Terminal(ec)
+        if how == "initialize":
+            await term.initialize(relative=0)
+        else:
+            await term.gentle_initialize(relative=0)
+            if how == "twice":
+                await term.gentle_initialize(relative=0)
+        await term.to_operational(MachineState.PRE_OPERATIONAL)
+        for _ in range(nreads):
+            r = await term.sdo_read(0x7000, 2)
+            if r != b"\x01\x02\x07\x09":
+                out["bad"] = f"read returned {r!r}"
+        out["position"] = term.position
+        out["fd"] = ec.lf.fd
+    try:
+        aio.run(main, max_iterations=200000)
+    except aio.WallClock:
+        raise
+    except Exception as ex:
+        res.violation("unexplained:address-leg-failed",
+                      f"{type(ex).__name__}: {str(ex)[:120]} [{desc}]",
+                      case=desc)
+        return
+    res.case(desc, nontrivial=True)
+    res.count("address_histories")
+    if old:
+        res.count("address_histories_with_a_stale_station_address")
+    station, = struct.unpack_from("<H", t.mem, 0x10)
+    data = os.pread(out["fd"], 2000, 0)
+    os.close(out["fd"])
+    used = {i + 1000: v for i, v in enumerate(data) if v}
+    if out.get("bad"):
+        res.violation("unexplained:address-leg-read", out["bad"], case=desc)
+    elif station != out["position"]:
+        res.violation("unexplained:address-leg-position",
+                      f"terminal answers to {station}, the Terminal object "
+                      f"says {out['position']}", case=desc)
+    elif set(used) != {station}:
+        res.violation(
+            "unexplained:lock-of-another-address",
+            f"the terminal has station address {station}; after "
+            f"{nreads} exchanges the lock file holds counters at "
+            f"{used} [{desc}]", case=desc)
+
+
 def run_shard(params):
     res = Result()
     rng = random.Random(params["seed"] * 100291 + params["shard"])
@@ -665,6 +750,10 @@ def run_shard(params):
     try:
         if params["mode"] == "inproc":
             for i in range(params["n"]):
+                try:
+                    address_leg(res, rng, tmpdir)
+                except aio.WallClock:
+                    res.inconc("address leg: wall-clock watchdog")
                 for parallel in (False, True):
                     try:
                         evs, errors, desc = inproc_history(rng, parallel,
